@@ -10,6 +10,7 @@ RULE = ('one record per (key, message, chunking): tag must equal the RFC 8439 bi
         'bytes, 5, 15/16/17 mixes, random; distinct = (key class, message length, message class, chunking class)')
 ASSUMPTIONS = ['big-int Poly1305 model pinned by RFC 8439 2.5.2, A.3 vectors and openssl mac poly1305']
 FLOORS = {'evaluations': 12000, 'distinct': 3000}
+THOROUGH_ROUNDS = 30   # thorough tier: generator passes with derived seeds (runner.gen_rounds)
 P = (1 << 130) - 5
 CLAMP = 0x0ffffffc0ffffffc0ffffffc0fffffff
 
